@@ -40,7 +40,7 @@ def var_field(vars_, idmap):
     for (s, e, r, a, t, vid) in vars_:
         if t not in CLS:
             return None
-        out.append(f'{s}:{e}:{r}:{a}:{CLS[t]}:{idmap.setdefault(vid, len(idmap))}')
+        out.append(f'{s}:{e}:{r}:{a}:{CLS[t]}:{cv_explore.vid_field(vid, idmap)}')
     return ';'.join(out)
 
 
